@@ -12,8 +12,9 @@ TRUSTED = ["hand-written model Model/Interfaces.v tied to forsys/virtual_edges.p
            "the mesh bookkeeping (ownEdges / ownCells lists) is taken from the implementation objects as model input; its "
            "consistency is C09's subject"]
 ASSUMPTIONS = ["meshes are consistent in the sense of C09 (checked per case by impl.consistency_errors)"]
-TESTED_NOT_PROVED = ["'every mesh edge of a cell that has a junction lies in exactly one interface' (walk determinism) and "
-                     "'internal interfaces separate exactly two cells' are evaluated by the graph-walk oracle on every case, not proved",
+TESTED_NOT_PROVED = ["'every mesh edge of a cell that has a junction lies in exactly one of that cell's interfaces' is proved for the model "
+                     "(C08_mesh_edge_in_exactly_one_interface); across cells (after de-duplication) and 'internal interfaces separate exactly two cells' "
+                     "it is evaluated by the graph-walk oracle on every case",
                      "lookup of an interface by its two cells (get_big_edge_by_cells) is compared with the oracle only"]
 IMPORTS = "From Forsys Require Import Model.CaseUtil Model.PyList Model.Interfaces.\n"
 
